@@ -7,8 +7,8 @@ use serde_json::{json, Value};
 use std::collections::BTreeSet;
 
 #[derive(Default)]
-struct Acc { evals: u64, ok: u64, unrenderable: u64, viols: Vec<Viol>, outs: BTreeSet<u64> }
-impl Acc { fn merge(&mut self, o: Acc) { self.evals += o.evals; self.ok += o.ok; self.unrenderable += o.unrenderable; self.viols.extend(o.viols); self.outs.extend(o.outs); } }
+struct Acc { evals: u64, ok: u64, unrenderable: u64, skipped: u64, viols: Vec<Viol>, outs: BTreeSet<u64> }
+impl Acc { fn merge(&mut self, o: Acc) { self.evals += o.evals; self.ok += o.ok; self.unrenderable += o.unrenderable; self.skipped += o.skipped; self.viols.extend(o.viols); self.outs.extend(o.outs); } }
 
 /// Ok(Some(text)) round trip holds, Ok(None) unrenderable (contains �), Err(description)
 pub fn roundtrip(w: &CW) -> Result<Option<String>, String> {
@@ -109,11 +109,13 @@ pub fn run() -> i32 {
     par_fold(twins.len(), 256, Acc::default, |i, a| {
         let (t, b, v) = &twins[i];
         let sy = |segs: Vec<SegBits>| vec![CSyl { segs, stress: 0, tone: 0 }];
+        // a bundle that does not survive on its own is box (i)'s business (reported there, bundle-exact); this box is about the pair
+        if roundtrip(&one(*b)).is_err() || roundtrip(&one(*v)).is_err() { a.skipped += 1; return; }
         check(&sy(vec![*b, *v]), format!("twin|{}|plain-first", t), a);
         check(&sy(vec![*v, *b]), format!("twin|{}|marked-first", t), a);
         check(&sy(vec![*b, *b, *v]), format!("twin|{}|after-long", t), a);
     }, |a| t2b.merge(a));
-    r.boxes.push(json!({"box": "(ii-b) phone + its own twin with one diacritic (both orders, after a long run)", "twins": twins.len(), "words": t2b.evals, "round_trip_ok": t2b.ok, "unrenderable": t2b.unrenderable, "failures": t2b.viols.len()}));
+    r.boxes.push(json!({"box": "(ii-b) phone + its own twin with one diacritic (both orders, after a long run)", "twins": twins.len(), "twins_skipped_single_bundle_fails": t2b.skipped, "words": t2b.evals, "round_trip_ok": t2b.ok, "unrenderable": t2b.unrenderable, "failures": t2b.viols.len()}));
     r.guard(t2b.ok > 1000, "(ii-b) more than 1000 twin words round-trip");
     // (iii)
     // one plain stop, one vowel carrying a diacritic (length marks after diacritics), an affricate with a tie, a click digraph
